@@ -271,6 +271,9 @@ func c13ExecG(path []int, pump int, reach bool) (menu int, v *fw.Violation, x *c
 
 func runC13(c *fw.Ctx) {
 	runSpxFamily(c, "C13")
+	if vsched.DefaultPolicy == 0 {
+		runC13Heap(c)
+	}
 	thorough := c.Tier == "thorough"
 	depth := 5
 	if thorough {
@@ -350,6 +353,13 @@ func runC13(c *fw.Ctx) {
 }
 
 func replayC13(raw json.RawMessage) (string, bool) {
+	var fam struct {
+		Family string `json:"family"`
+	}
+	json.Unmarshal(raw, &fam)
+	if fam.Family == "c13heap" {
+		return replayC13Heap(raw)
+	}
 	var r struct {
 		Case c13Case `json:"case"`
 	}
